@@ -10,17 +10,24 @@ package tbtcpg
 //@ assume func ProposalTask.Run
 //@   modifies ghost.anyRunOK, ghost.lastRunProposal, ghost.lastRunTask
 //@   ensures ghost.lastRunTask == recv && ghost.lastRunProposal == result0 && ghost.anyRunOK == (old(ghost.anyRunOK) || (result1 && result2 == nil))
-//@ assume func golang.org/x/exp/slices.IndexFunc
-//@   ensures result == -1 || (0 <= result && result < len(arg0))
+// (slices.IndexFunc: assumed contract in the prelude.)
 
 //@ func ProposalGenerator.Generate
 //@   property C33
 //@   opt noframe 1
 //@   requires pg != nil && request != nil && !ghost.anyRunOK
-//@   modifies ghost.anyRunOK, ghost.lastRunProposal, ghost.lastRunTask, alloc
+//@   modifies ghost.anyRunOK, ghost.lastRunProposal, ghost.lastRunTask, ghost.idxCalls, ghost.idxLast, alloc
 //@   ensures [returns-the-first-task-result-or-a-no-op] err == nil ==> (ghost.anyRunOK && result0 == ghost.lastRunProposal) || (!ghost.anyRunOK && result0 != nil && dyntype(result0) == typeid(*tbtc.NoopProposal))
 //@   ensures [a-task-error-yields-no-proposal] err != nil ==> result0 == nil
 //@   loop 1 invariant !ghost.anyRunOK
+//@   assert call:ProposalTask.Run : [tasks-are-consulted-in-checklist-order-each-for-its-own-action] action == request.ActionsChecklist[rangeidx1] && recv == pg.tasks[taskIndex] && arg0 == request
+//@   hint call:IndexFunc : [the-task-is-looked-up-among-the-registered-tasks] arg0 == pg.tasks
+//@   lit 1
+//@     opt noframe 1
+//@     ensures [the-lookup-matches-the-task-action-with-the-current-checklist-action] result == (@taskAction(task) == action)
+//@ spec func taskAction(t ref) tbtc.WalletActionType
+//@ assume func ProposalTask.ActionType
+//@   ensures result == @taskAction(recv)
 
 //@ func findDeposits
 //@   property C33
